@@ -71,10 +71,12 @@ type recw struct {
 	rc      int // SetWriteDeadline calls that reached this writer
 	last    int // argument of the last WriteHeader call (what an outer WithCodeResponseWriter records); 200 if none
 	whCalls int // WriteHeader calls received
-	sgid    int64
-	sret    *atomic.Bool
-	late    int
-	foreign int
+	// lock probe only: a Write arriving while stall is set reports on stalled and waits for stall
+	stall, stalled chan struct{}
+	sgid           int64
+	sret           *atomic.Bool
+	late           int
+	foreign        int
 }
 
 type recInfo struct {
@@ -125,6 +127,13 @@ func (w *recw) writeHeader(code int) {
 }
 
 func (w *recw) Write(p []byte) (int, error) {
+	if w.stall != nil {
+		select {
+		case w.stalled <- struct{}{}:
+			<-w.stall
+		default:
+		}
+	}
 	w.mu.Lock()
 	defer w.mu.Unlock()
 	w.note()
